@@ -296,6 +296,41 @@ func c20Gen(tier string, rng *rand.Rand, emit func(string)) map[string]interface
 		}
 	}
 
+	// ---- one caller-owned slice spread into several combinator calls (argument list must stay untouched)
+	ruScripts := []string{"P", "C", "J", "I", "P,P", "P,C", "C,P", "J,I", "J,J", "I,J", "P,x,C,x", "P,x,P,x", "C,P,x,C",
+		"P,g1", "P,h1", "h1,P", "h1,g1", "h2,x,h1", "g1,C", "P,C,P", "J,C,P,I", "P,J,C", "h1,h2,C", "P,x,h1,x,g2"}
+	c20Lists(aff4, 2, 4, func(fs []string) {
+		body := strings.Join(fs, " ; ")
+		for _, sc := range ruScripts {
+			out("reuse_slice", fmt.Sprintf("ru %s 1,2: %s", sc, body))
+		}
+	})
+	ruSteps := []string{"C", "P", "I", "J", "x", "g1", "g2", "g3", "h1", "h2", "h3", "h5"}
+	nRU := 800
+	if thorough {
+		nRU = 8000
+	}
+	for i := 0; i < nRU; i++ {
+		n := 1 + rng.Intn(8)
+		fs := make([]string, n)
+		for j := range fs {
+			fs[j] = allFns[rng.Intn(len(allFns))]
+			if fs[j] == "d" && j > 2 {
+				fs[j] = "r"
+			}
+		}
+		m := 1 + rng.Intn(6)
+		steps := make([]string, m)
+		for j := range steps {
+			steps[j] = ruSteps[rng.Intn(len(ruSteps))]
+		}
+		in := make([]int, rng.Intn(4))
+		for j := range in {
+			in[j] = rng.Intn(9) - 3
+		}
+		out("reuse_slice_random", fmt.Sprintf("ru %s %s: %s", strings.Join(steps, ","), c20ShowInts(in), strings.Join(fs, " ; ")))
+	}
+
 	// ---- adapters
 	for n := 1; n <= 6; n++ {
 		for l := 0; l <= 8; l++ {
